@@ -10,6 +10,10 @@ var checks = map[string]func(*Ctx){
 	"C02":    runC02,
 	"C12":    runC12,
 	"C13":    runC13,
+	"C10":    runC10,
+	"C01":    runC01,
+	"C04":    runC04,
+	"C11":    runC11,
 	"C16":    runC16,
 	"C03":    runC03,
 	"C18":    runC18,
